@@ -126,8 +126,9 @@ func ruleReflectHazards(p *Prog, a *Anchors, r *Report, rule string, inScope fun
 							})
 						}
 						g := nonNilAt(in, fn)
-						if !g && reflectCallWrapper(p, f) && recoversIntoError(f) {
-							g = true // "call of nil function" is recovered and returned as an error
+						if !g && reflectCallWrapper(p, f) && recoversIntoError(f) && strings.HasPrefix(rule, "R-C01") {
+							g = true // "call of nil function" is recovered and returned as an error (no panic); for name
+							// resolution (C08) a nil func is the empty value, which needs the test at the call site
 						}
 						if !g && reflectCallWrapper(p, f) {
 							// a helper that only makes the Call: the function value is the caller's, tested there
